@@ -100,6 +100,10 @@ def find_sinks(p, r1, f, chunk, buffer, scope_nodes=None):
             okl = recv in (key, f"{coll}[{key}]") and is_plain_iter(p, it_expr)
             if recv == key and not coll.endswith(".values()"):
                 okl = False
+            if recv == key and isinstance(it_expr, ast.Name) and it_expr.id in f.params and is_plain_iter(p, it_expr):
+                # a shared read helper: it feeds every hasher of the collection it is GIVEN; which hashers those are is the callers' business
+                # (judged on the helper-inlined view, where the collection is the caller's)
+                okl = True
             r1.check(okl, f, lp, "the update loop does not feed every hasher of the collection", construct=f"for {key} in {coll}: {recv}.update")
             hashers.add(coll.replace(".values()", "").replace(".keys()", ""))
             avoid.add(g.by_ast[id(lp)].id)
